@@ -30,6 +30,9 @@ fn run_pair(t: &mut Trace, prog: &str, ast: Option<&Ast>, tpl: &str, input: &V, 
         }
     };
     let text = input.text();
+    if std::env::var("C23_ECHO").is_ok() {
+        eprintln!("RUN {prog} <<< {text}");
+    }
     let oe = run_full(&expr, text.as_bytes());
     let og = run_generic(&expr, text.as_bytes());
     let inv = input.enc();
@@ -119,6 +122,7 @@ fn main() {
                 }
             }
             g.odd_nums = true;
+            g.big = false; // opaque templates contain range(@@), @@ * @@, limit(@@; ..): no huge magnitudes
             for _ in 0..opaque {
                 let (text, tpl) = g.opaque_program_tpl();
                 for _ in 0..inputs.min(2) {
